@@ -18,6 +18,8 @@ type RecvHandshakeState struct {
 	// HasHandshake distinguishes an ACK-only event from a handshake event.
 	HasHandshake bool
 	IsRetransmit bool
+	// RepeatsHello is set when a retransmitted record starts with a ClientHello.
+	RepeatsHello bool
 	// ACK messages received from the peer.
 	ACKs []protocol.ACK
 	// Protected handshake records that should be acknowledged.
